@@ -6,6 +6,7 @@ import (
 	"go/types"
 	"sort"
 	"strings"
+	"time"
 
 	"golang.org/x/tools/go/ssa"
 )
@@ -836,7 +837,12 @@ func (ex *Explorer) Run() {
 	}
 	visited := map[string]bool{}
 	work := []*State{init}
+	deadline := time.Now().Add(90 * time.Second)
 	for len(work) > 0 {
+		if ex.Nodes%512 == 0 && time.Now().After(deadline) {
+			ex.Exceeded = true
+			return
+		}
 		st := work[len(work)-1]
 		work = work[:len(work)-1]
 		k := st.key()
